@@ -486,7 +486,8 @@ fn shrink(ctx: &mut Ctx, case: &Case, loader: Loader, f: &Finding) -> (Case, Fin
     }
     // canonical range / dtype
     let crash = want.0 == "no-error";
-    let len_cands: Vec<&str> = if crash { vec!["9223372036854775807", "4", "0"] } else { vec!["0", "4", "16"] };
+    // crashes: the largest length the loaders' own guard lets through, then lengths whose sum with offset 8 wraps u64
+    let len_cands: Vec<&str> = if crash { vec!["9223372036854775807", "18446744073709551608", "18446744073709551615", "4", "0"] } else { vec!["0", "4", "16"] };
     for len in len_cands {
         if best.tensors[ti].length.as_deref() == Some(len) && best.tensors[ti].dtype == UINT8 {
             break;
@@ -507,6 +508,9 @@ fn shrink(ctx: &mut Ctx, case: &Case, loader: Loader, f: &Finding) -> (Case, Fin
             _ => None,
         });
         let mut offs = vec!["0".to_string()];
+        if crash {
+            offs.push("8".to_string());
+        }
         if let Some(sz) = size {
             offs.push((sz + 1).to_string());
         }
@@ -600,7 +604,7 @@ fn run_many(ctx: &mut Ctx, items: &[(Case, Loader)]) -> Vec<ChildRes> {
     let mut results: Vec<ChildRes> = Vec::with_capacity(items.len());
     while results.len() < items.len() {
         let start = results.len();
-        let chunk = &items[start..(start + 64).min(items.len())];
+        let chunk = &items[start..(start + 128).min(items.len())];
         ctx.rep.count("result_monitor_children_forked");
         let (end, lines, stderr) = exec::fork_stream(|emit| {
             for (j, (case, loader)) in chunk.iter().enumerate() {
@@ -645,7 +649,7 @@ fn result_monitor(ctx: &mut Ctx, items: &[(Case, Loader)]) {
             ctx.rep.count(&format!("violating_executions:{}", ps));
             // Shrink the first few of each class; further ones of the same class are counted.
             let n = ctx.shrunk_per_class.entry(ps.clone()).or_insert(0);
-            if *n >= 2 {
+            if *n >= 1 {
                 continue;
             }
             *n += 1;
@@ -933,8 +937,16 @@ pub fn run(args: &mut Args) {
     }
 
     // ---------------------------------------------------------------- workload
+    let do_result = args.get("result").unwrap_or("1") != "0";
+    // Under a sanitizer the traced children would be dominated by the runtime's own file
+    // accesses (and LeakSanitizer cannot run under ptrace): result monitor only.
+    let sanitized = std::env::var("VERIF_FLAVOUR").map(|f| f != "native").unwrap_or(false);
+    let do_syscall = args.get("syscall").unwrap_or(if sanitized { "0" } else { "1" }) != "0";
+    let do_fixed = args.get("fixed").unwrap_or("1") != "0";
     if args.shard == 0 {
-        syscall_selftest(&mut ctx);
+        if do_syscall {
+            syscall_selftest(&mut ctx);
+        }
         for p in &pinned {
             for (case, loaders, monitor) in load_witnesses(p) {
                 ctx.rep.count("pinned_witnesses_run");
@@ -942,17 +954,14 @@ pub fn run(args: &mut Args) {
                 if monitor != "syscall" {
                     result_monitor(&mut ctx, &items);
                 }
-                if monitor != "result" {
+                if monitor != "result" && do_syscall {
                     syscall_monitor(&mut ctx, &items, "pinned");
                 }
             }
         }
     }
-    let do_result = args.get("result").unwrap_or("1") != "0";
-    let do_syscall = args.get("syscall").unwrap_or("1") != "0";
-    let do_fixed = args.get("fixed").unwrap_or("1") != "0";
     let fixed: Vec<Case> = cgen::fixed_cases(&tree).into_iter().filter(|_| do_fixed).enumerate().filter(|(i, _)| i % args.shards == args.shard).map(|(_, c)| c).collect();
-    let n_random = args.budget(2000, 300000);
+    let n_random = args.budget(1600, 150000);
     let mut rng = Rng::derive(args.seed, 0xC21_0000 + args.shard as u64);
     let mut queue: Vec<(Case, Loader)> = Vec::new();
     let mut batch_no = 0usize;
@@ -994,10 +1003,10 @@ pub fn run(args: &mut Args) {
         json!("a symlink with an acceptable name directly inside the model directory is treated as 'a file directly inside the directory' whatever its target (counted in accepted_symlink_in_model_dir_pointing_outside_not_judged); the system-call monitor resolves links in the directory part of an opened path only"),
     );
     let accepted: u64 = ["file", "mmap", "mem"].iter().map(|l| ctx.rep.counters.get(&format!("{}:tensors_compared", l)).copied().unwrap_or(0)).sum();
-    if accepted == 0 && ctx.rep.inconclusive.is_none() {
+    if do_result && accepted == 0 && ctx.rep.inconclusive.is_none() {
         ctx.rep.inconclusive = Some("no load succeeded, so the content monitor compared nothing".into());
     }
-    if ctx.rep.counters.get("strace_open:data_file_in_model_dir").copied().unwrap_or(0) == 0 && ctx.rep.inconclusive.is_none() {
+    if do_syscall && ctx.rep.counters.get("strace_open:data_file_in_model_dir").copied().unwrap_or(0) == 0 && ctx.rep.inconclusive.is_none() {
         ctx.rep.inconclusive = Some("the system-call monitor never saw a data file being opened".into());
     }
     let _ = (FLOAT, elem_size(FLOAT));
